@@ -17,7 +17,8 @@ EXPLANATION = (
     "or \"\\r\\n\") and advances an offset by line length + 1 must account for the two-character terminator; R5 unit "
     "agreement: StdOut::new selects ariadne::IndexType::Char exactly when the alpha lexer is the front end and that lexer "
     "advances offsets in chars(), Byte for delta; R6 colour/charset options flow into the ariadne Config. Not decided: "
-    "span contents and rendering for every input.")
+    "span contents and rendering for every input."
+    " ADDED LATER: R7 a merged location takes line and column from its receiver: Tokens::location_of_span and the cast site build start.combined_with(end).")
 
 ERR = "alpha::error::Error"
 
